@@ -1,14 +1,15 @@
 // C19 — transcripts and hash-to-curve are deterministic, unambiguous, domain-separated.
 //
-// Transcript part (model checking): ALL operation histories up to depth d (quick 3, thorough 4) over the
-// splitting alphabet below are executed on the real hagrid transcript; the map
+// Transcript part (model checking): ALL operation histories over a splitting alphabet are executed on the real hagrid
+// transcript: depth <= 3 over the wide alphabet (58 operations) in both tiers, and depth <= 4 over the alphabet of
+// DESIGN §5 C19 plus the extraction length 137 (41 operations) in the thorough tier. The map
 // abstract history -> Extract("probe",32) must be injective on the whole set (decided for all pairs at once with
 // a hash map), equal histories on fresh transcripts give equal bytes at every step, Clone is the identity on the
-// abstract history and clones / origins evolve independently. A boring reference model of the documented framing
+// abstract history and clones / origins evolve independently. A boring reference model of the framing in hagrid.go
 // (tag byte, 64-bit lengths, extraction fork) is compared at every step and its frames are checked prefix-free,
 // which explains why injectivity holds.
 //
-// Hash-to-curve part: see h2c_test.go.
+// Hash-to-curve / hash-to-field part: h2c_test.go; expand_message: expander_test.go; math/big references: ref_test.go.
 package c19
 
 import (
